@@ -87,13 +87,28 @@ def gen_chain_tree(rng, RG):
             nn = RG.Node("NUMANode", numa[0])
             numa[0] += 1
             nn.attrs["local_memory"] = str(1 << 20)
-            if rng.random() < 0.15:
+            if rng.random() < 0.25:
                 mc = RG.Node("MemCache")
                 mc.attrs.update({"cache_size": "1048576", "depth": "1", "cache_linesize": "64", "cache_associativity": "1", "cache_type": "0"})
                 mc.m.append(nn)
                 host.m.append(mc)
+                # Misc objects below memory objects, the memory-side cache included (seeded change C01j: the special-level
+                # walk skipped the Misc children of a MemCache)
+                for mo_host in (mc, nn):
+                    for j in range(rng.choice([0, 1, 1, 2])):
+                        mo = RG.Node("Misc")
+                        mo.attrs["name"] = "mm%d-%s-%d" % (col, mo_host.ty, j)
+                        if rng.random() < 0.3:
+                            mo2 = RG.Node("Misc")
+                            mo2.attrs["name"] = "mm%d-%s-%d-below" % (col, mo_host.ty, j)
+                            mo.x.append(mo2)
+                        mo_host.x.append(mo)
             else:
                 host.m.append(nn)
+                if rng.random() < 0.2:
+                    mo = RG.Node("Misc")
+                    mo.attrs["name"] = "mn%d" % col
+                    nn.x.append(mo)
     if numa[0] == 0 or rng.random() < 0.3:
         nn = RG.Node("NUMANode", numa[0])
         nn.attrs["local_memory"] = str(1 << 20)
@@ -206,8 +221,8 @@ def make_cases(run, scratch):
                 cfg = ["filter %d %d" % (tynum[t], rng.choice([2, 2, 0])) for t in types]
             else:
                 cfg = S.filter_lines(rng)
-            if rng.random() < 0.6:        # keep Misc and I/O objects (filtered out by default)
-                cfg += ["filter 19 0"] + (["filter 16 0", "filter 17 0", "filter 18 0"] if rng.random() < 0.7 else [])
+            if rng.random() < 0.6:        # keep Misc and I/O objects (filtered out by default), and memory-side caches
+                cfg += ["filter 19 0"] + (["filter 16 0", "filter 17 0", "filter 18 0"] if rng.random() < 0.7 else []) + (["filter 15 0"] if rng.random() < 0.7 else [])
             cfg += ["flags %d" % flag_choices(rng, "xml")]
             cases.append(("chainxml:%d|%s" % (i, ";".join(cfg)), ["env HWLOC_LIBXML_IMPORT %d" % (i % 2)] + cfg + ["src xml " + path], "genxml"))
     except Exception as e:
@@ -619,12 +634,12 @@ def judge(run, cases, results):
                 if m:
                     run.cov["insertions_replayed_in_model"] = run.cov.get("insertions_replayed_in_model", 0) + int(m.group(1))
                     # hypotheses of discovery_insertions_keep_order (Topo/DiscInsertProofs.v) evaluated on every traced call:
-                    # inthm = inside the theorem (and its conclusion was checked on the C tree after the call), putback = the
-                    # excluded put-back outcome, noord = the tree before the call is not ordered, nohyp = OBJ without a usable
+                    # inthm = inside the theorem (and its conclusion was checked on the C tree after the call), putback = the put-back
+                    # outcome, inside failed_insertion_leaves_the_tree_unchanged (conclusion checked: the C tree did not change), noord = the tree before the call is not ordered, nohyp = OBJ without a usable
                     # cpuset / the known sibling defect would be met
                     m2 = re.search(r"inthm=(\d+) putback=(\d+) noord=(\d+) nohyp=(\d+)", r["inserts"])
                     if m2:
-                        for key, v in zip(("insertions_inside_order_theorem", "insertions_outside_putback", "insertions_outside_tree_not_ordered", "insertions_outside_hypotheses"), m2.groups()):
+                        for key, v in zip(("insertions_inside_order_theorem", "putback_insertions_inside_identity_theorem", "insertions_outside_tree_not_ordered", "insertions_outside_hypotheses"), m2.groups()):
                             run.cov[key] = run.cov.get(key, 0) + int(v)
                         # hypotheses of discovery_children_cover_cpusets on the whole load: every traced call inside the order
                         # theorem and every cpu of every requested cpuset requested alone
